@@ -8,7 +8,7 @@ CONSTANTS
   Delays = {1}
   WishItems = 2
   DefaultIval = 9
-  EnvOps = {"search", "cmd", "wlmsg", "remove", "reply", "rheld", "searchrm", "sheld", "recmd"}
+  EnvOps = {"search", "cmd", "wlmsg", "remove", "reply", "rheld", "searchrm", "sheld", "recmd", "srvloss"}
   MaxOps = 7
   MaxTime = 6
   MaxTasks = 6
@@ -22,6 +22,7 @@ CONSTANTS
   StartBeforeEmit = TRUE
   CmdFreshTicket = TRUE
   TimeoutUsesRemove = FALSE
+  LossCancelsTimers = FALSE
   LstCode = "-"
 INVARIANT TypeOK
 INVARIANT DistinctTickets
